@@ -54,6 +54,12 @@ func serializeSyncBlocks(output io.Writer, blocks []syncBlock) {
 }
 
 func deserializeSyncBlocks(numBlocks int, reader *bufio.Reader) []syncBlock {
+	blocks, _ := readSyncBlocks(numBlocks, reader)
+	return blocks
+}
+
+// readSyncBlocks is deserializeSyncBlocks reporting input that ends early or is malformed.
+func readSyncBlocks(numBlocks int, reader *bufio.Reader) ([]syncBlock, error) {
 	blocks := make([]syncBlock, 0)
 
 	lastStartID := uint64(0)
@@ -61,16 +67,24 @@ func deserializeSyncBlocks(numBlocks int, reader *bufio.Reader) []syncBlock {
 	buf := make([]byte, 8)
 
 	for i := 0; i < numBlocks; i++ {
-		start, _ := binary.ReadUvarint(reader)
-		length, _ := binary.ReadUvarint(reader)
-		_, _ = io.ReadFull(reader, buf)
+		start, err := binary.ReadUvarint(reader)
+		if err != nil {
+			return blocks, err
+		}
+		length, err := binary.ReadUvarint(reader)
+		if err != nil {
+			return blocks, err
+		}
+		if _, err = io.ReadFull(reader, buf); err != nil {
+			return blocks, err
+		}
 		blocks = append(blocks, syncBlock{Start: lastStartID + start, Offset: offset, Length: length, Hash: binary.LittleEndian.Uint64(buf)})
 
 		lastStartID = lastStartID + start
 		offset = offset + length
 	}
 
-	return blocks
+	return blocks, nil
 }
 
 func Makesync(logger *log.Logger, cliVersion string, fileName string, blockSizeKb int) error {
